@@ -7,7 +7,8 @@ events=[("acceptBegin","(r : Nat)","(.acceptBegin r)"),("acceptReject","(r : Nat
  ("execBegin","(e : Nat) (f : Flav) (t : Nat)","(.execBegin e f t)"),("execEnd","(e : Nat) (o : Out)","(.execEnd e o)"),
  ("endRun","(r : Res)","(.endRun r)"),("launch","",".launch"),("flush","",".flush"),("sweep","(p : Nat)","(.sweep p)"),
  ("record","(p : Nat)","(.record p)"),("close","(f : Flav)","(.close f)"),("rtaskEnd","(f : Flav)","(.rtaskEnd f)"),
- ("gatherRaise","(f : Flav)","(.gatherRaise f)"),("gatherDone","",".gatherDone"),("discard","(p : Nat)","(.discard p)")]
+ ("gatherRaise","(f : Flav)","(.gatherRaise f)"),("gatherDone","",".gatherDone"),("discard","(p : Nat)","(.discard p)"),
+ ("hold","(p h : Nat)","(.hold p h)"),("dropUnit","(p : Nat)","(.dropUnit p)")]
 hs=", ".join("h%d"%i for i in range(1,nfields+1))
 print(f"""import CobaldVerif.Lemmas.Runtime
 namespace Cobald.Runtime
@@ -23,7 +24,7 @@ macro "inv_ev" : tactic => `(tactic| (
   all_goals (try simp only [beq_iff_eq, Bool.or_eq_true] at *)
   all_goals (first | exact h | (
     obtain ⟨{hs}⟩ := h
-    constructor <;> (try simp only [upd'_apply, upd_apply, setFlavTid_phase, setFlavTid_guard, setFlavTid_pay, setFlavTid_fl, setFlavTid_starts, setFlavTid_tid, setFlavTid_latch, setFlavTid_rtask, setFlavTid_gather, setFlavTid_stopReq, setFlavTid_flushed, setFlavTid_execs, setFlavTid_failedQuiet, setFlavTid_pids]) <;> grind [step.upd', upd, St.quiet, St.closing, Out.failing, Out.loopKiller, St.setFlavTid, St.tidOK, St.coBusy, Flav.isCo, Phase.restartable, Latch.isFailed{extra}]))))
+    constructor <;> (try simp only [upd'_apply, upd_apply, setFlavTid_phase, setFlavTid_guard, setFlavTid_pay, setFlavTid_fl, setFlavTid_starts, setFlavTid_tid, setFlavTid_latch, setFlavTid_rtask, setFlavTid_gather, setFlavTid_stopReq, setFlavTid_flushed, setFlavTid_execs, setFlavTid_failedQuiet, setFlavTid_holder, setFlavTid_pids]) <;> grind [step.upd', upd, St.quiet, St.closing, Out.failing, Out.loopKiller, St.setFlavTid, St.tidOK, St.coBusy, Flav.isCo, Phase.restartable, Latch.isFailed{extra}]))))
 """)
 for name,binders,ev in events:
     print(f"theorem {inv}_{name} (s s' : St) {binders} (h : {inv} s) (hs : step s {ev} = some s') : {inv} s' := by\n  inv_ev\n")
